@@ -54,6 +54,7 @@ typedef struct vthread {
     const volatile void *ll_addr;
     uint64_t ll_val;
     int ll_rep, ro_streak;
+    uint64_t since; /* step at which it last ran or became runnable (starvation age under PCT) */
     /* log dedupe */
     const volatile void *lg_addr;
     uint64_t lg_val;
@@ -78,6 +79,7 @@ static char first_failure[512];
 static int nfail;
 static int spurious_deadlock_rescues;
 static uint64_t nwrites, writes_at_rescue = (uint64_t)-1;
+static int debug_parks; /* VS_DEBUG_PARKS=1: log spin/idle parking (`Z` lines) */
 static int log_all;
 static void (*event_fn)(int, const void *, const void *, long);
 static int autoname_units; /* name work units T<n> at their creation event, drop the name at free */
@@ -229,6 +231,7 @@ static void wake(vthread *t)
     if (t->st == ST_BLOCKED) {
         t->st = ST_RUNNABLE;
         t->bkind = BK_NONE;
+        t->since = steps;
     }
 }
 
@@ -310,10 +313,27 @@ static int choose(vthread *cur)
             for (int k = 0; k < pct_depth; k++)
                 if (pct_change[k] == steps && cur)
                     cur->prio = pct_low--;
+            /* bounded fairness: strict priorities starve a low-priority thread for ever when the others busy-wait
+             * without yielding, sleeping or getting parked (e.g. a scheduler loop that re-posts a request word on
+             * every round keeps waking an idle poller).  A thread that has been runnable for 20000 steps without
+             * running is scheduled once. */
+            {
+                int starved = -1;
+                for (int k = 0; k < n; k++)
+                    if (steps - T[r[k]].since > 20000 && (starved < 0 || T[r[k]].since < T[starved].since))
+                        starved = r[k];
+                if (starved >= 0) {
+                    static long pct_high = 2000000;
+                    T[starved].since = steps;
+                    T[starved].prio = pct_high++; /* it runs until it yields, sleeps, blocks or is parked (each demotes) */
+                    return starved;
+                }
+            }
             int b = r[0];
             for (int k = 1; k < n; k++)
                 if (T[r[k]].prio > T[b].prio)
                     b = r[k];
+            T[b].since = steps;
             return b;
         }
         if (cur && cur->st == ST_RUNNABLE && (int)(xs(&rng_s) % 100) < stick)
@@ -364,6 +384,8 @@ static int block(vthread *self, int kind, const void *obj, int has_deadline, dou
     if (logf && kind != BK_SPIN && kind != BK_IDLE) {
         char b[64];
         fprintf(logf, "B %d %s %s\n", self->id, BKN[kind], vs_addr_name(obj, b, sizeof b));
+    } else if (logf && debug_parks) {
+        fprintf(logf, "Z park %d %s prio=%ld steps=%llu\n", self->id, BKN[kind], (long)self->prio, (unsigned long long)steps);
     }
     int nx = choose(NULL);
     if (nx < 0)
@@ -429,6 +451,8 @@ void vs_init(uint64_t seed, const char *mode, const char *logpath)
     }
     if (getenv("VS_BUDGET"))
         budget = strtoull(getenv("VS_BUDGET"), 0, 0);
+    if (getenv("VS_DEBUG_PARKS"))
+        debug_parks = 1;
     if (getenv("VS_LOG_ALL"))
         log_all = 1;
     if (mode && !strncmp(mode, "pct:", 4)) {
@@ -575,9 +599,14 @@ void abt_verif_atomic(int kind, int width, const volatile void *addr, uint64_t a
         point(self);
         /* a write is about to happen: pollers may now make progress */
         LOCK();
-        for (int i = 0; i < nthreads; i++)
+        for (int i = 0; i < nthreads; i++) {
             if (T[i].st == ST_BLOCKED && (T[i].bkind == BK_IDLE || (T[i].bkind == BK_SPIN && T[i].bobj == (const void *)addr)))
                 wake(&T[i]);
+            /* a poller that is not parked yet gets a fresh allowance too: what it polls may have just changed (it must
+             * not be parked on the strength of reads it did before this write) */
+            if (&T[i] != self)
+                T[i].ro_streak = 0;
+        }
         UNLOCK();
     }
     if (atomic_fn) /* scenario hook: runs while this thread holds the token, right before the op executes (may vs_name) */
@@ -906,6 +935,10 @@ static void vsleep(double secs)
         point(me);
         return;
     }
+    /* a real nanosleep never returns before the timer slack (50 us by default): polling loops that sleep 100 ns at a
+     * time (pop_wait of the built-in pools) then cost 50 times fewer steps per virtual second */
+    if (secs < 50e-6)
+        secs = 50e-6;
     block(me, BK_SLEEP, NULL, 1, vclock + secs);
 }
 int __wrap_nanosleep(const struct timespec *req, struct timespec *rem)
